@@ -1,6 +1,8 @@
 package main
 
 import (
+	"crypto/sha256"
+	"encoding/json"
 	"fmt"
 	"go/ast"
 	"go/parser"
@@ -20,6 +22,7 @@ import (
 func doShape(repo, out string) {
 	pkgs := []string{".", "microqr", "rmqr", "internal/bitmap", "internal/bitstream", "internal/reedsolomon", "internal/reedsolomon/element", "internal/reedsolomon/poly"}
 	var panics, writes, imgUses, pvars []string
+	hashes := map[string]string{}
 	for _, p := range pkgs {
 		dir := filepath.Join(repo, p)
 		ents, err := os.ReadDir(dir)
@@ -99,6 +102,28 @@ func doShape(repo, out string) {
 		}
 		for _, f := range files {
 			for _, d := range f.Decls {
+				// fingerprint of every declaration (comments are not parsed): used to notice WHICH functions changed
+				switch dd := d.(type) {
+				case *ast.FuncDecl:
+					nm := dd.Name.Name
+					if rn, _ := recvName(dd); rn != "" {
+						nm = rn + "." + nm
+					}
+					hashes[p+":"+nm] = fmt.Sprintf("%x", sha256.Sum256([]byte(render(fset, dd))))
+				case *ast.GenDecl:
+					if dd.Tok == token.VAR || dd.Tok == token.CONST || dd.Tok == token.TYPE {
+						for _, sp := range dd.Specs {
+							switch vs := sp.(type) {
+							case *ast.ValueSpec:
+								for _, n := range vs.Names {
+									hashes[p+":"+dd.Tok.String()+" "+n.Name] = fmt.Sprintf("%x", sha256.Sum256([]byte(render(fset, vs))))
+								}
+							case *ast.TypeSpec:
+								hashes[p+":type "+vs.Name.Name] = fmt.Sprintf("%x", sha256.Sum256([]byte(render(fset, vs))))
+							}
+						}
+					}
+				}
 				fn, ok := d.(*ast.FuncDecl)
 				if !ok || fn.Body == nil {
 					continue
@@ -255,6 +280,10 @@ func doShape(repo, out string) {
 	copy(ms, mismatches)
 	fmt.Fprintf(&sb, "def mismatches : List String := %s\n\nend QRV.Gen.Shape\n", q(ms))
 	if err := os.WriteFile(filepath.Join(out, "Shape.lean"), []byte(sb.String()), 0o644); err != nil {
+		panic(err)
+	}
+	hb, _ := json.MarshalIndent(hashes, "", " ")
+	if err := os.WriteFile(filepath.Join(filepath.Dir(out), "funchashes.json"), hb, 0o644); err != nil {
 		panic(err)
 	}
 }
